@@ -127,7 +127,7 @@ impl Property for C11 {
         "case = one shared Gauge or IntGauge (standalone - one handle shared by reference, or two handles - or a GaugeVec/IntGaugeVec child), 2-3 threads x 1-5 operations from \
          set/inc/dec/add/sub/get/Collector::collect with small integer or dyadic arguments (25% of programs: also negative, 2^40, \
          1e300, f64::MAX, +Inf, integers up to 2^59 - IEEE resp. exact integer arithmetic in the model; 7% of programs: the gauge starts at \
-         -0.0 and arguments are +-0.0 / 1 / 0.5), and a schedule (random walk, PCT with 1-3 priority change points, or a window that pauses one thread before its \
+         -0.0 and arguments are +-0.0 / 1 / 0.5; 10% of float programs: the gauge starts at NaN, +Inf or -Inf and arguments are NaN / +-Inf / 5 / 1 / 0.5, all NaNs being one value), and a schedule (random walk, PCT with 1-3 priority change points, or a window that pauses one thread before its \
          k-th atomic step while another completes whole operations) with up to 3 injected spurious compare-exchange failures; the \
          real library code runs one atomic step at a time in that order. Oracle: exhaustive linearizability search against the \
          sequential gauge model; on set-free programs the final value equals the signed sum. Non-trivial: a thread was pre-empted \
@@ -192,6 +192,15 @@ impl Property for C11 {
         if zero_sign {
             sys.g.exec(GOp::Set(-0.0));
         }
+        // 10% of float programs play with the non-finite values: the gauge starts at NaN, +Inf or -Inf (a NaN gauge is how "unknown" is
+        // exported) and arguments come from {NaN, +Inf, -Inf, 1, 5, 0.5}; all NaNs are one value for the oracle, and IEEE arithmetic
+        // (Inf - Inf = NaN, NaN + x = NaN) is the sequential behaviour: a set(5) that completes is not undone by somebody else's add
+        let nonfinite = float && !zero_sign && src.chance(26);
+        let mut start = 0f64;
+        if nonfinite {
+            start = [f64::NAN, f64::INFINITY, f64::NEG_INFINITY][src.below(3)];
+            sys.g.exec(GOp::Set(start));
+        }
         let nthreads = 2 + src.below(2);
         let mut prog: Vec<Vec<GOp>> = vec![];
         for _ in 0..nthreads {
@@ -212,6 +221,9 @@ impl Property for C11 {
                 }
                 if zero_sign {
                     v = [1.0, 0.0, -0.0, 0.5][src.below(4)];
+                }
+                if nonfinite {
+                    v = [5.0, 1.0, 0.5, f64::INFINITY, f64::NEG_INFINITY, f64::NAN][src.below(6)];
                 }
                 ops.push(match src.below(9) {
                     0 | 1 => GOp::Add(v),
@@ -267,11 +279,11 @@ impl Property for C11 {
                 .collect();
             format!("{} gauge{}, program {:?}, history {}", if float { "float" } else { "int" }, if via_vec { " (vector child)" } else { "" }, prog, h.join("; "))
         };
-        if linearize(&GModel(if float { 0f64.to_bits() } else { 0 }, float), &hist).is_none() {
+        if linearize(&GModel(if float { fbits(start) } else { 0 }, float), &hist).is_none() {
             return fail("not-linearizable", describe());
         }
         let set_free = prog.iter().all(|p| p.iter().all(|o| !matches!(o, GOp::Set(_))));
-        if set_free && !wide {
+        if set_free && !wide && !nonfinite {
             let mut sum = 0.0;
             for p in &prog {
                 for o in p {
@@ -303,6 +315,9 @@ impl Property for C11 {
         }
         if zero_sign {
             rep.class("zero-sign-play(starts at -0.0)");
+        }
+        if nonfinite {
+            rep.class("non-finite-play(starts at NaN/+Inf/-Inf)");
         }
         if exec.spurious_injected > 0 {
             rep.class("spurious-cas-failure-injected");
